@@ -7,13 +7,14 @@
    [ab]: inside set_member, is the new member stored and attached BEFORE the aliases of the replaced member are re-targeted?
    The translator reads it from the source (Gen/C16_shape.v: attach_before_retarget; the extracted model runs [step] at that
    value); every theorem below is proved for BOTH values, the two theorems about finding C16-F2 say where they differ.
-   [top_down s o]: the operation inserts a FRESH object under its own name (ONew), or inserts AGAIN an alias that was deleted
-   or replaced and of which nothing is left behind (OSet: no container lists it, no aliases dictionary mentions it); never an
+   [top_down s o]: the operation inserts a FRESH object under its own name (ONew), or inserts AGAIN an alias - or an object
+   without members - that was deleted or replaced and of which nothing is left behind (OSet: no container lists it, no aliases
+   dictionary mentions it, no alias points at it); never an
    alias directly into the collection; every object it is applied to (receiver, alias operand) is in the tree at that moment.
    [all_top_down ab init ops] says so for every step of the history; [known_gap ab ops] is its negation. *)
 From Coq Require Import List ZArith String Bool Arith.
 From Verif Require Import Lib.Sexp.
-From Verif Require Import Gen.C16_shape Model.C16_tree Proofs.C16_tree.
+From Verif Require Import Gen.C16_shape Model.C16_tree Model.C16_through Proofs.C16_tree Proofs.C16_through.
 Import ListNotations.
 Open Scope list_scope. Open Scope nat_scope.
 
@@ -37,6 +38,14 @@ Theorem C16_reattach_in_discipline : forall ab,
   option_map naliases (getn (run ab init sample_reattach) 2) = Some [(["c"; "c"]%string, 4); (["a"; "c"]%string, 3)].
 Proof. intro ab. split; [exact (sample_reattach_disciplined ab) | exact (proj1 (sample_reattach_listed ab))]. Qed.
 Print Assumptions C16_reattach_in_discipline.
+
+(* ... and so is a deleted function that is inserted again in another module (objects without members qualify, too) *)
+Theorem C16_reattach_plain_in_discipline : forall ab,
+  all_top_down ab init sample_reattach_plain = true /\
+  get (run ab init sample_reattach_plain) RRoot ["n"; "f"]%string = Ok 2 /\
+  path_of (run ab init sample_reattach_plain) 2 = POk ["n"; "f"]%string.
+Proof. exact sample_reattach_plain_disciplined. Qed.
+Print Assumptions C16_reattach_plain_in_discipline.
 
 (* ---- what the invariant says, clause by clause *)
 
@@ -198,3 +207,39 @@ Theorem C16_refines_dict_alias_ops :
   forall q, dict_of (fst (step ab s o)) q = dict_of s q.
 Proof. exact refines_dict_alias_ops. Qed.
 Print Assumptions C16_refines_dict_alias_ops.
+
+(* ---- navigation THROUGH aliases (Model/C16_through.v): Alias.members is a function of the final target's members NOW;
+   a lookup returns an object of the heap (RN) or a wrapper alias (RW a suf m: reached from the alias a by the names suf,
+   target m).  All four statements hold in EVERY state (no discipline), the last one under the structural invariant. *)
+
+(* the names seen through an object, an alias or a wrapper are the names of its final target's members, in their order *)
+Theorem C16_through_names :
+  forall s x ms, members_t s x = Ok ms ->
+  exists f, ref_final s x = Ok f /\ is_plain s f = true /\ map fst ms = map fst (members_of s f).
+Proof. exact through_names. Qed.
+Print Assumptions C16_through_names.
+
+(* dotted lookup through aliases = chained lookup through aliases *)
+Theorem C16_through_dotted_eq_chained :
+  forall s p x q, gett_from s x (p ++ q) = match gett_from s x p with Ok y => gett_from s y q | Err e => Err e end.
+Proof. exact gett_from_app. Qed.
+Print Assumptions C16_through_dotted_eq_chained.
+
+(* ... = chained lookup through the FINAL TARGETS: what a lookup through aliases returns is (a wrapper around) exactly the
+   object found by going to the final target at every step and taking its member *)
+Theorem C16_through_eq_final_targets :
+  forall s p x y, gett_from s x p = Ok y -> getc s (obj_of x) p = Ok (obj_of y).
+Proof. exact through_eq_chained. Qed.
+Print Assumptions C16_through_eq_final_targets.
+
+(* where no alias is on the way it is the plain lookup of the other theorems *)
+Theorem C16_through_extends_get :
+  forall s p i x, get s (RObj i) p = Ok x -> p <> [] -> gett_from s (RN i) p = Ok (RN x).
+Proof. exact gett_from_plain. Qed.
+Print Assumptions C16_through_extends_get.
+
+(* what is returned for a path has that path (a wrapper: the alias's path plus the names walked since) *)
+Theorem C16_through_path :
+  forall s, Inv s -> forall p y, gett s RRoot p = Ok y -> ref_path s y = POk p.
+Proof. intros s H. exact (gett_path s (proj1 H)). Qed.
+Print Assumptions C16_through_path.
